@@ -12,6 +12,7 @@ import copy
 import logging
 import threading
 import threading as _threading
+import concurrent.futures as _cf
 from concurrent.futures import BrokenExecutor as _BrokenExecutor
 from concurrent.futures import Executor as _Executor
 from concurrent.futures import Future as _CFuture
@@ -41,6 +42,7 @@ RULE = (
 )
 RULE += "; the explicit executor may be a concurrent.futures.Executor of the caller's own (thread per call)"
 RULE += "; built-in exception classes as the function's outcome; the call may be handed to create_task / ctx.spawn instead of being awaited in place"
+RULE += '; exception instances as arguments and results; concurrent.futures exception classes raised by the function'
 LEVEL_TEXT = (
     "Differential: what the undecorated function receives, returns or raises is compared with the decorated call "
     "(identity for exceptions); inside the function the thread identity, a loop heartbeat and the caller's context "
@@ -106,6 +108,9 @@ _BUILTIN_RAISED = {
     "OSError": OSError,
     "InvalidStateError": asyncio.InvalidStateError,
     "BrokenExecutor": _BrokenExecutor,
+    # exactly the classes asyncio re-creates when it copies an executor future's exception
+    "concurrent.futures.CancelledError": _cf.CancelledError,
+    "concurrent.futures.InvalidStateError": _cf.InvalidStateError,
 }
 
 
@@ -152,6 +157,10 @@ def make_value(spec):
         return P.A(v=spec["x"])
     if k == "obj":
         return object()
+    if k == "excinst":
+        # an exception INSTANCE as a plain value (a result-or-error record, an argument to report): returned / passed on,
+        # never raised by a wrapper
+        return {"ValueError": ValueError, "TimeoutError": TimeoutError, "CancelledError": asyncio.CancelledError, "FnErr": FnErr}[spec["x"]]("a value, not raised")
     if k == "iter":
         # a one-shot iterator / generator as ARGUMENT: the function itself must be the one that consumes it
         it = iter(list(spec["items"])) if spec.get("how") == "iter" else (x for x in list(spec["items"]))
@@ -777,6 +786,7 @@ def strategy(tier):
             st.builds(lambda x: {"k": "state", "x": x}, st.integers(0, 5)),
             st.just({"k": "obj"}),
             st.just({"k": "future"}),
+            st.builds(lambda x: {"k": "excinst", "x": x}, st.sampled_from(["ValueError", "TimeoutError", "CancelledError", "FnErr"])),
             st.builds(lambda xs, how: {"k": "iter", "items": xs, "how": how}, st.lists(st.integers(0, 9), min_size=1, max_size=3), st.sampled_from(["iter", "gen"])),
         ),
         lambda ch: st.one_of(
